@@ -20,6 +20,14 @@ DEV_SYNC = {
 }
 
 
+DEV_B = {
+    "dets": {"d1": {"trigger_delay": 0.05}, "d4": {"stage_status": 0.05, "salt": 4.0}},
+    "motors": {"m1": {"delay": 0.1}},
+    "sigs": {},
+    "flyers": {},
+}
+
+
 def point(dets=("d1",), motor=None, value=None, stream="primary", run=None, group="g"):
     """checkpoint; [set motor; wait]; trigger dets; wait; create; read...; save"""
     nodes = [M("checkpoint")]
@@ -129,6 +137,47 @@ def _sleepy():
     )
 
 
+def _async_stage():
+    # a device whose stage()/unstage() return Status objects (ophyd-async style), work before and after
+    return SEQ(
+        M("open_run"),
+        M("checkpoint"),
+        M("null", None, "before-stage"),
+        M("stage", "d4", group="s"),
+        M("wait", None, group="s"),
+        M("null", None, "after-stage"),
+        M("sleep", None, 0.1),
+        point(("d4",), "m1", 0.5),
+        M("null", None, "before-unstage"),
+        M("unstage", "d4", group="u"),
+        M("null", None, "after-unstage"),
+        M("wait", None, group="u"),
+        M("sleep", None, 0.1),
+        M("checkpoint"),
+        M("close_run"),
+    )
+
+
+def _watch_wait():
+    # wait on one group while watching another (what collect_while_completing does)
+    return SEQ(
+        M("open_run"),
+        M("checkpoint"),
+        M("set", "m1", 1.0, group="mv"),
+        M("trigger", "d1", group="t"),
+        M("wait", None, group="t", watch=["mv"]),
+        M("wait", None, group="mv", watch=["nonexistent"]),
+        M("create", None, name="primary"),
+        M("read", "d1"),
+        M("read", "m1"),
+        M("save"),
+        M("checkpoint"),
+        M("set", "m1", 2.0, group="mv2"),
+        M("wait", None, group="mv2", watch=["mv2"]),
+        M("close_run"),
+    )
+
+
 def B(name, *args, **kwargs):
     return ["builtin", name, {"args": list(args), "kwargs": kwargs}]
 
@@ -145,6 +194,8 @@ CORPUS = {
     "monitor": (_monitor_plan(), DEV_SYNC, 0),
     "fly": (_fly_plan(), DEV_A, 0),
     "sleepy": (_sleepy(), DEV_A, 0),
+    "async_stage": (_async_stage(), DEV_B, 0),
+    "watch_wait": (_watch_wait(), DEV_A, 0),
     "grid22": (B("grid_scan", DS("d1"), D("m1"), 0.0, 1.0, 2, D("m2"), 0.0, 1.0, 2, True), DEV_A, 1),
     "rel_scan": (B("rel_scan", DS("d1"), D("m1"), -1.0, 1.0, 3), DEV_A, 1),
     "list_scan": (B("list_scan", DS("d2"), D("m1"), [0.0, 0.5, 2.0], D("m2"), [1.0, 1.5, 0.0]), DEV_A, 1),
